@@ -756,7 +756,7 @@ class EventSeries(Cached):
             directedESMatrix = self._ndim_event_synchronization()
 
         elif method == 'ECA':
-            if self.__taumax is np.inf:
+            if np.isinf(self.__taumax):
                 raise ValueError("'delta' must be a finite time window to"
                                  " determine event coincidence!")
 
